@@ -41,14 +41,23 @@ theorem data_string_spelling (s : Str) :
     DataElement.render (F := F) (.str s) = if s.contains '"' then s else '"' :: s ++ ['"'] := rfl
 
 /-- A numeral after an identifier is listed without its leading zero (so it
-    starts with the decimal point it must have been written with); everywhere
-    else a numeral is listed as `Display` prints it. -/
+    starts with the decimal point it must have been written with); the numeral 1
+    (a leading-point numeral that rounded up) is listed as `.99999999999999999999`;
+    everywhere else a numeral is listed as `Display` prints it. -/
 theorem numeral_after_identifier (sym : Str) (x : F) (rest : List (Token F))
-    (h : endsWithDollar sym = false) (h0 : (NumOps.render x).head? = some '0') :
+    (h : endsWithDollar sym = false) :
     listSpellings (some (.symbol sym)) (.num x :: rest) =
-      (if NumOps.render x == ['0'] then ['.', '0'] else (NumOps.render x).tail) ::
+      (if NumOps.render x = ['0'] then ['.', '0']
+       else if NumOps.render x = ['1'] then ".99999999999999999999".toList
+       else if (NumOps.render x).head? = some '0' then (NumOps.render x).tail
+       else NumOps.render x) ::
         listSpellings (some (.num x)) rest := by
-  simp [listSpellings, Token.render, h, h0]
+  simp only [listSpellings, Token.render, h]
+  by_cases h0 : NumOps.render x = ['0']
+  · simp [h0]
+  · by_cases h1 : NumOps.render x = ['1']
+    · simp [h1]
+    · by_cases h2 : (NumOps.render x).head? = some '0' <;> simp [h0, h1, h2]
 
 theorem numeral_elsewhere (k : Kw) (x : F) (rest : List (Token F)) :
     listSpellings (some (.kw k)) (.num x :: rest) = NumOps.render x :: listSpellings (some (.num x)) rest := by
